@@ -7,6 +7,10 @@ Uninitialised memory is a further source of run-to-run differences: `numpy.empty
 looked up by Python code at call time) return memory filled with 0x00 bytes in variants 0 and 2 and with 0x7f
 bytes (huge finite floats, large integers) in variant 1, so a result that depends on a never-written slot
 differs between the two runs of the determinism property.
+What ran earlier in the same process is no input of a training run either: variant 1 runs the scenarios of a
+routine in the opposite order (a single scenario is run twice and the second recording kept), so state that leaks from one call of a
+routine into the next (module-level caches, default-argument objects, class attributes) meets a different
+history in the two runs.
 """
 import json
 import os
@@ -47,16 +51,21 @@ def main():
         random.seed(1)
     from harness import algos
 
-    traces = []
-    for sc in algos.scenarios(tier, seed, name):
-        sc = dict(sc)
+    scs = [dict(sc) for sc in algos.scenarios(tier, seed, name)]
+    order = list(range(len(scs)))
+    if variant == 1:
+        order = order[::-1] if len(order) > 1 else order * 2  # opposite order; a single scenario twice (the second recording is kept)
+    by = {}
+    for i in order:
+        sc = dict(scs[i])
         if variant == 2:
             sc["seed"] = sc["seed"] + 100
         g0 = _global_rng_digest()
         tr = algos.run(name, sc)
         tr["id"] = f"{name}:{sc['label']}"
-        tr["global_rng_untouched"] = _global_rng_digest() == g0
-        traces.append(tr)
+        tr["global_rng_untouched"] = _global_rng_digest() == g0 and by.get(i, {}).get("global_rng_untouched", True)
+        by[i] = tr
+    traces = [by[i] for i in range(len(scs))]
     with open(out + f".tmp{os.getpid()}", "w") as f:
         json.dump(traces, f)
     os.replace(out + f".tmp{os.getpid()}", out)
